@@ -61,6 +61,9 @@ type c15Case struct {
 	Fault    string `json:"fault,omitempty"`     // "" | "descriptor-exhaustion"
 	Pairs    int    `json:"pairs,omitempty"`     // stalled peers the descriptor table has room for (2 descriptors each, +1)
 	LeavePct int    `json:"leave_pct,omitempty"` // share of the piled-up peers that leave before the good clients arrive
+	// c15_crowd_test.go, fault "dns-session-table-full"
+	Extra   int `json:"extra_arrivals,omitempty"` // version requests arriving one by one after the table was seen full
+	Leavers int `json:"leavers,omitempty"`        // stalled peers that close their session before the good clients arrive
 }
 
 var kinds = []string{"tcp", "unix", "tcp+tls", "tcp+starttls", "ws", "wss", "udp", "dns"}
@@ -770,7 +773,7 @@ func startServer(c *c15Case) (*e2e.Pair, error) {
 }
 
 func caseKey(c *c15Case) string {
-	return fmt.Sprintf("%s/%s/%s/%d/%v/%s/%s%d", c.Kind, c.Order, strings.Join(c.Points, ","), c.Goods, c.Sizes, strings.Join(c.GarbageClass, ","), c.Hold+c.Fault, c.HoldN+c.Pairs*100+c.LeavePct)
+	return fmt.Sprintf("%s/%s/%s/%d/%v/%s/%s%d", c.Kind, c.Order, strings.Join(c.Points, ","), c.Goods, c.Sizes, strings.Join(c.GarbageClass, ","), c.Hold+c.Fault, c.HoldN+c.Pairs*100+c.LeavePct+c.Extra*100000+c.Leavers*1000000)
 }
 
 // runScenario returns true when the scenario cost a stall window (budget control).
@@ -1140,6 +1143,28 @@ func buildCases(rec *vcommon.Rec, kind string) []*c15Case {
 			add("good-first", "mixed", mixed(k), 1)
 		}
 	}
+	// crowds (c15_crowd_test.go): many peers stalled inside the handshake, beyond any small bound
+	if base != "dns" {
+		hp := handshakePointsOf(kind)
+		var cpts []string
+		if base == "udp" || rec.Thorough() {
+			cpts = hp
+		} else {
+			cpts = []string{hp[rng.Intn(len(hp))]}
+		}
+		for _, pt := range cpts {
+			if rec.Thorough() {
+				for _, k := range []int{20, 40, 100} {
+					add("bad-first", "crowd:"+pt, rep(pt, k), 1+k%3)
+				}
+			} else {
+				add("bad-first", "crowd:"+pt, rep(pt, 20+rng.Intn(29)), 2)
+			}
+		}
+		if rec.Thorough() {
+			add("good-first", "crowd:mixed", mixed(100), 2)
+		}
+	}
 	return out
 }
 
@@ -1205,7 +1230,9 @@ func TestVerifC15(t *testing.T) {
 		if err := json.Unmarshal(rec.Replay, &c); err != nil {
 			t.Fatal(err)
 		}
-		if c.Fault != "" {
+		if c.Fault == faultDNSFull {
+			rs.runDnsFullScenario(&c)
+		} else if c.Fault != "" {
 			rs.runFdScenario(&c)
 		} else {
 			rs.runScenario(&c)
@@ -1233,6 +1260,16 @@ func TestVerifC15(t *testing.T) {
 	// Resource-exhaustion scenarios: work items after those (they lower the descriptor limit of the process
 	// for their duration); one work item per kind in the thorough tier, two in all in the quick one.
 	if os.Getenv("VERIF_KINDS") == "" {
+		// the DNS session table filled by stalled peers: one work item per scenario, after the last descriptor item
+		nFd := 2
+		if rec.Thorough() {
+			nFd = len(fdKinds) + len(fdMoreKinds)
+		}
+		for j, c := range buildDnsFullCases(rec) {
+			if rec.Mine(2*len(ks)+len(holds)+nFd+j) && rs.abandon == "" {
+				rs.runDnsFullScenario(c)
+			}
+		}
 		fdStalls := 0
 		for j, c := range buildFdCases(rec) {
 			item := j % 2
